@@ -318,8 +318,13 @@ def _gfunction_cases(seed):
             order = list(hs)
             rnd.shuffle(order)          # the family may have been stored in any order (deepest first, shuffled, ...)
 
+            # the family may be tabulated at a constant r_b / H: a different stored radius per height (linear in the height, so every
+            # interpolation kind reproduces it exactly)
+            per_height_rb = ncurves % 2 == 0 or rnd.random() < 0.5
+            rbs = {h: (0.0006 * h if per_height_rb else 0.075) for h in hs}
+
             def fresh():
-                return GFunction(b=5.0, d=2.0, r_b_values={h: 0.075 for h in order}, g_lts={h: list(curves[h]) for h in order}, log_time=list(logt), bore_locations=[(0, 0), (5, 0)])
+                return GFunction(b=5.0, d=2.0, r_b_values={h: rbs[h] for h in order}, g_lts={h: list(curves[h]) for h in order}, log_time=list(logt), bore_locations=[(0, 0), (5, 0)])
 
             for h in hs:
                 gf = fresh()
@@ -331,6 +336,14 @@ def _gfunction_cases(seed):
                 n += 1
                 if np.max(np.abs(np.array(got) - np.array(curves[h]))) > 1e-10:
                     bad.append(f"{ncurves} stored curves: interpolating at the stored height {h} does not return the stored curve")
+                if abs(float(rb) - rbs[h]) > 1e-9:
+                    bad.append(f"{ncurves} stored curves: interpolating at the stored height {h} returns the radius {float(rb)!r}, stored with that curve: {rbs[h]!r}")
+            if ncurves >= 2 and per_height_rb:
+                hq = rnd.uniform(hs[0], hs[-1])
+                rbq = float(fresh().g_function_interpolation(5.0 / hq)[1])
+                n += 1
+                if abs(rbq - 0.0006 * hq) > 1e-9:
+                    bad.append(f"{ncurves} stored curves with radii 0.0006 H: the radius returned for H = {hq:.3f} is {rbq!r}, not {0.0006 * hq!r}")
             # cache: in-range queries do not depend on earlier in-range queries
             if ncurves >= 2:
                 qs = [rnd.uniform(hs[0], hs[-1]) for _ in range(3)]
